@@ -25,7 +25,7 @@ Post(p) ==
     /\ Len(order') = p.nmsgs
     /\ desync' = p.defunct
 
-Shape(f) == [ver |-> f.ver, neg |-> f.neg, blen |-> f.blen]
+Shape(f) == [ver |-> f.ver, neg |-> f.neg, blen |-> f.blen, sid |-> f.sid]
 
 TraceInit ==
     /\ tid \in 1..NTraces
